@@ -1080,6 +1080,10 @@ class Tensor:
         -------
         mygrad.Tensor
             The tensor-result of the operation's forward-pass."""
+        if constant is not None and not isinstance(constant, bool):
+            # (checked before anything is written into an `out` target)
+            raise TypeError(f"`constant` must be a boolean value, got: {constant}")
+
         if out is not None:
             if isinstance(out, tuple):
                 if len(out) > 1:  # pragma: no cover
